@@ -471,7 +471,9 @@ def run(ctx):
         "element constructors, assignments and destructors are value copies in the model (what a moved-from element "
         "holds is a universally quantified parameter of the theorems)",
         "libstdc++ basic_string buffer policy (`_M_create`: at least doubling, SSO capacity) is modelled from the "
-        "translator's compiled probe, not verified; protobuf message reuse (message.cpp) is not modelled",
+        "translator's compiled probe, not verified; protobuf containers are trusted: the message capacity-metadata model "
+        "(Babylon/RVec/Msg.lean, two levels) is tied to message.cpp/message.h by source-text obligations and exercised by the "
+        "oracle harness harness/c12pb.cpp (no model-vs-code diff for that scene)",
         "memory safety of the real containers is decided by ASan+UBSan (null check off, see checks/C12.py) on the sampled histories only",
     ]
     ctx.assumptions += [
@@ -596,7 +598,7 @@ def run(ctx):
     if pbexe is None:
         ctx.broke("correspondence", "harness/c12pb.cpp does not build against /repo", pblog[-800:])
     else:
-        npb = (80 if ctx.quick else 800) * (4 if ctx.broken else 1)
+        npb = (60 if ctx.quick else 800) * (4 if ctx.broken else 1)
         pbcases = load_corpus("pb") + [gen_pb_case(ctx.rng, stats) for _ in range(npb)]
         dist["scenes"]["protobuf"] = len(pbcases)
         for c in pbcases:
@@ -612,7 +614,10 @@ def run(ctx):
                        "assignment and construction with equal and different allocators and allocation-metadata round trips; (reuse) a "
                        "workload repeated after clear() with a no-allocation check; (manager) units behind accessors, recreate interval "
                        "1..5, no-allocation check after a converged re-creation; (string) assign/append/clear/stable_reserve/"
-                       "resize_uninitialized/metadata round trip.  Indices and counts are steered to 0/size/constructed/capacity +-1 by a "
+                       "resize_uninitialized/metadata round trip; (protobuf, oracle only) ArenaExample messages behind a SwissManager, 1-2 units "
+                       "cycling through big/small/sub-message/repeated round types at cadence 1..5, per-field capacities must never "
+                       "shrink across ops, clear and re-creation, cleared message == fresh message, repeated rounds allocate nothing.  "
+                       "Indices and counts are steered to 0/size/constructed/capacity +-1 by a "
                        "size simulation.  A case is non-trivial when it has >= 10 ops of >= 4 kinds; distinct by content hash")
     ctx.cov["samples"] = [sample] if sample else []
     ctx.cov["traces_validated_against_impl"] = ctx.cov["evaluations"]
@@ -671,7 +676,8 @@ MANIFEST = {
             "clear/recreate cadence of the model; the model is re-tied to /repo on each run by gen/rvec.py (growth policy, source text "
             "of each transcribed function) and by running model and real containers (8 element/resource modes) on the same histories",
     "note": "Trusted: Lean kernel + 3 standard axioms; gen/rvec.py; harness/c12.cpp and its generator (sampling); element types' own "
-            "constructors/assignment modelled as value copies; libstdc++ string growth policy from a probe; protobuf message reuse not modelled",
+            "constructors/assignment modelled as value copies; libstdc++ string growth policy from a probe; protobuf internals trusted "
+            "(message capacity metadata modelled two levels deep, tied by source-text obligations and the c12pb oracle harness only)",
 }
 
 
